@@ -13,7 +13,7 @@ structure Accepted (o : Oracles α ι) (env : Env) (s : State α) (src : Nat) (i
     (router : Nat) (p : MakeTxParam) (aux : α) (trouter : Nat) : Prop where
   src_not_black : src ∉ s.black
   src_registered : s.chains.lookup src = some router
-  router_supported : supportedRouters.contains router = true
+  router_supported : router ∈ supportedRouters
   router_active : ¬ env.height < routerStartBlock env.mainNet router
   verified : o.verify router env s inp = .accept p aux
   fresh : env.doneGate = true → (src, p.crossChainID) ∉ s.done
@@ -24,7 +24,7 @@ structure Accepted (o : Oracles α ι) (env : Env) (s : State α) (src : Nat) (i
 theorem import_cases (H : Bytes → Bytes) (o : Oracles α ι) (env : Env) (s : State α) (src : Nat) (inp : ι) :
     (∃ c, importExTransfer H o env s src inp = fail s c)
     ∨ importExTransfer H o env s src inp = ⟨.panic, s, []⟩
-    ∨ (∃ router aux, s.chains.lookup src = some router ∧ src ∉ s.black ∧ supportedRouters.contains router = true ∧
+    ∨ (∃ router aux, s.chains.lookup src = some router ∧ src ∉ s.black ∧ router ∈ supportedRouters ∧
         ¬ env.height < routerStartBlock env.mainNet router ∧ o.verify router env s inp = .pending aux ∧
         importExTransfer H o env s src inp = ⟨.okPending, { s with aux := aux }, []⟩)
     ∨ (∃ router p aux trouter, Accepted o env s src inp router p aux trouter ∧
@@ -38,28 +38,28 @@ theorem import_cases (H : Bytes → Bytes) (o : Oracles α ι) (env : Env) (s : 
         importExTransfer H o env s src inp = ⟨.okDelegated, s2, []⟩) := by
   unfold importExTransfer
   by_cases hb : src ∈ s.black
-  · left; exact ⟨"src-black", by simp [hb]⟩
-  simp only [hb, if_false]
+  · left; exact ⟨"src-black", by rw [if_pos hb]⟩
+  rw [if_neg hb]
   cases hl : s.chains.lookup src with
   | none => left; exact ⟨"src-unreg", rfl⟩
   | some router =>
     simp only
-    by_cases hsup' : ¬ supportedRouters.contains router = true
-    · left; exact ⟨"router", by simp [hsup']⟩
-    have hsup : supportedRouters.contains router = true := Decidable.not_not.mp hsup'
-    simp only [hsup, Bool.not_true, Bool.false_eq_true, if_false]
+    by_cases hsup' : router ∉ supportedRouters
+    · left; exact ⟨"router", by rw [if_pos hsup']⟩
+    have hsup : router ∈ supportedRouters := Decidable.not_not.mp hsup'
+    rw [if_neg hsup']
     by_cases hh : env.height < routerStartBlock env.mainNet router
-    · left; exact ⟨"router", by simp [hh]⟩
-    simp only [hh, if_false]
+    · left; exact ⟨"router", by rw [if_pos hh]⟩
+    rw [if_neg hh]
     unfold makeDepositProposal
     cases hv : o.verify router env s inp with
     | reject c => left; exact ⟨c, rfl⟩
     | pending aux =>
       simp only
-      by_cases hr : (router == VOTE_ROUTER || router == RIPPLE_ROUTER) = true
+      by_cases hr : router = VOTE_ROUTER ∨ router = RIPPLE_ROUTER
       · right; right; left
-        exact ⟨router, aux, rfl, hb, hsup, hh, hv, by simp [hr]⟩
-      · right; left; simp [hr]
+        exact ⟨router, aux, rfl, hb, hsup, hh, hv, by rw [if_pos hr]⟩
+      · right; left; rw [if_neg hr]
     | accept p aux =>
       simp only
       by_cases hg : env.doneGate = true
@@ -78,26 +78,26 @@ theorem import_cases (H : Bytes → Bytes) (o : Oracles α ι) (env : Env) (s : 
           have hs1 : afterAccept env s src p aux = { s with aux := aux, done := (src, p.crossChainID) :: s.done } := by
             simp [afterAccept, hg]
           simp only
-          by_cases hbtc : (trouter == BTC_ROUTER) = true
-          · simp only [hbtc, if_true]
+          by_cases hbtc : trouter = BTC_ROUTER
+          · rw [if_pos hbtc]
             cases hm : o.btcMake env { s with aux := aux, done := (src, p.crossChainID) :: s.done } p src with
             | none => left; exact ⟨"verify", rfl⟩
             | some s2 =>
               right; right; right; right
               exact ⟨router, p, aux, trouter, s2, hacc, Or.inl (by rw [hs1]; exact hm), rfl⟩
-          · simp only [hbtc, Bool.false_eq_true, if_false]
-            by_cases hrip : (trouter == RIPPLE_ROUTER) = true
-            · simp only [hrip, if_true]
+          · rw [if_neg hbtc]
+            by_cases hrip : trouter = RIPPLE_ROUTER
+            · rw [if_pos hrip]
               cases hm : o.rippleMake env { s with aux := aux, done := (src, p.crossChainID) :: s.done } p src with
               | none => left; exact ⟨"verify", rfl⟩
               | some s2 =>
                 right; right; right; right
                 exact ⟨router, p, aux, trouter, s2, hacc, Or.inr (by rw [hs1]; exact hm), rfl⟩
-            · simp only [hrip, Bool.false_eq_true, if_false]
+            · rw [if_neg hrip]
               right; right; right; left
               refine ⟨router, p, aux, trouter, hacc, ?_, ?_, ?_⟩
-              · intro h; exact hbtc (by simp [h])
-              · intro h; exact hrip (by simp [h])
+              · exact hbtc
+              · exact hrip
               · rw [hs1]
       · simp only [hg, Bool.false_eq_true, if_false]
         by_cases hdb : p.toChainID ∈ s.black
@@ -111,26 +111,334 @@ theorem import_cases (H : Bytes → Bytes) (o : Oracles α ι) (env : Env) (s : 
           have hs1 : afterAccept env s src p aux = { s with aux := aux } := by
             simp [afterAccept, hg]
           simp only
-          by_cases hbtc : (trouter == BTC_ROUTER) = true
-          · simp only [hbtc, if_true]
+          by_cases hbtc : trouter = BTC_ROUTER
+          · rw [if_pos hbtc]
             cases hm : o.btcMake env { s with aux := aux } p src with
             | none => left; exact ⟨"verify", rfl⟩
             | some s2 =>
               right; right; right; right
               exact ⟨router, p, aux, trouter, s2, hacc, Or.inl (by rw [hs1]; exact hm), rfl⟩
-          · simp only [hbtc, Bool.false_eq_true, if_false]
-            by_cases hrip : (trouter == RIPPLE_ROUTER) = true
-            · simp only [hrip, if_true]
+          · rw [if_neg hbtc]
+            by_cases hrip : trouter = RIPPLE_ROUTER
+            · rw [if_pos hrip]
               cases hm : o.rippleMake env { s with aux := aux } p src with
               | none => left; exact ⟨"verify", rfl⟩
               | some s2 =>
                 right; right; right; right
                 exact ⟨router, p, aux, trouter, s2, hacc, Or.inr (by rw [hs1]; exact hm), rfl⟩
-            · simp only [hrip, Bool.false_eq_true, if_false]
+            · rw [if_neg hrip]
               right; right; right; left
               refine ⟨router, p, aux, trouter, hacc, ?_, ?_, ?_⟩
-              · intro h; exact hbtc (by simp [h])
-              · intro h; exact hrip (by simp [h])
+              · exact hbtc
+              · exact hrip
               · rw [hs1]
+
+/-! ## consequences -/
+
+/-- The BTC / ripple transaction builders (oracles) do not touch done marks, the blacklist or the registry. -/
+def DelegatesConfined (o : Oracles α ι) : Prop :=
+  ∀ env s p src s2, (o.btcMake env s p src = some s2 ∨ o.rippleMake env s p src = some s2) →
+    s2.done = s.done ∧ s2.black = s.black ∧ s2.chains = s.chains
+
+@[simp] theorem afterAccept_black (env : Env) (s : State α) (src : Nat) (p : MakeTxParam) (aux : α) :
+    (afterAccept env s src p aux).black = s.black := by unfold afterAccept; split <;> rfl
+@[simp] theorem afterAccept_chains (env : Env) (s : State α) (src : Nat) (p : MakeTxParam) (aux : α) :
+    (afterAccept env s src p aux).chains = s.chains := by unfold afterAccept; split <;> rfl
+@[simp] theorem afterAccept_requests (env : Env) (s : State α) (src : Nat) (p : MakeTxParam) (aux : α) :
+    (afterAccept env s src p aux).requests = s.requests := by unfold afterAccept; split <;> rfl
+theorem afterAccept_done (env : Env) (s : State α) (src : Nat) (p : MakeTxParam) (aux : α) :
+    (afterAccept env s src p aux).done = if env.doneGate then (src, p.crossChainID) :: s.done else s.done := by
+  unfold afterAccept; split <;> rfl
+
+/-- What an import does to the done marks, and which message it executed. -/
+theorem import_done (H : Bytes → Bytes) (o : Oracles α ι) (hconf : DelegatesConfined o)
+    (env : Env) (s : State α) (src : Nat) (inp : ι) :
+    (acceptedId H o s (.importTx env src inp) = none ∧ (importExTransfer H o env s src inp).state.done = s.done)
+    ∨ (∃ p : MakeTxParam, acceptedId H o s (.importTx env src inp) = some (src, p.crossChainID) ∧
+        (env.doneGate = true → (src, p.crossChainID) ∉ s.done) ∧
+        (importExTransfer H o env s src inp).state.done =
+          if env.doneGate then (src, p.crossChainID) :: s.done else s.done) := by
+  rcases import_cases H o env s src inp with ⟨c, h⟩ | h | ⟨router, aux, _, _, _, _, _, h⟩ |
+      ⟨router, p, aux, tr, hacc, _, _, h⟩ | ⟨router, p, aux, tr, s2, hacc, hm, h⟩
+  · left; simp [acceptedId, h, fail]
+  · left; simp [acceptedId, h]
+  · left; simp [acceptedId, h]
+  · right
+    refine ⟨p, ?_, hacc.fresh, ?_⟩
+    · simp [acceptedId, h, hacc.src_registered, hacc.verified]
+    · rw [h]; simp [makeTransaction, afterAccept_done]
+  · right
+    refine ⟨p, ?_, hacc.fresh, ?_⟩
+    · simp [acceptedId, h, hacc.src_registered, hacc.verified]
+    · rw [h]
+      have := (hconf env _ p src s2 hm).1
+      simp [this, afterAccept_done]
+
+theorem step_done_mono (H : Bytes → Bytes) (o : Oracles α ι) (hconf : DelegatesConfined o) (s : State α) (op : Op ι)
+    (m : Nat × Bytes) (hm : m ∈ s.done) : m ∈ (step H o s op).done := by
+  cases op with
+  | importTx env src inp =>
+    simp only [step]
+    rcases import_done H o hconf env s src inp with ⟨_, h⟩ | ⟨p, _, _, h⟩
+    · rw [h]; exact hm
+    · rw [h]; split
+      · exact List.mem_cons_of_mem _ hm
+      · exact hm
+  | black w c => simp only [step, blackChain]; split <;> exact hm
+  | white w c => simp only [step, whiteChain]; split <;> exact hm
+  | register c r => exact hm
+  | unregister c => exact hm
+
+theorem run_done_mono (H : Bytes → Bytes) (o : Oracles α ι) (hconf : DelegatesConfined o) (ops : List (Op ι))
+    (s : State α) (m : Nat × Bytes) (hm : m ∈ s.done) : m ∈ (run H o s ops).done := by
+  induction ops generalizing s with
+  | nil => exact hm
+  | cons op rest ih => exact ih _ (step_done_mono H o hconf s op m hm)
+
+/-- every import of the history runs with the done check active (main net, or test net past the gate height) -/
+def GateOn : List (Op ι) → Prop
+  | [] => True
+  | .importTx env _ _ :: rest => env.doneGate = true ∧ GateOn rest
+  | _ :: rest => GateOn rest
+
+/-- The number of times a message is executed along a history is 1 if it became marked done during the history and 0
+otherwise. -/
+theorem count_accepted_eq (H : Bytes → Bytes) (o : Oracles α ι) (hconf : DelegatesConfined o) (m : Nat × Bytes)
+    (ops : List (Op ι)) (s : State α) (hg : GateOn ops) :
+    (m ∈ (run H o s ops).done ∧ m ∉ s.done → countAccepted H o m s ops = 1) ∧
+    (¬ (m ∈ (run H o s ops).done ∧ m ∉ s.done) → countAccepted H o m s ops = 0) := by
+  induction ops generalizing s with
+  | nil => simp [countAccepted, run]
+  | cons op rest ih =>
+    have hrun : run H o s (op :: rest) = run H o (step H o s op) rest := rfl
+    rw [hrun]
+    -- facts about one step
+    have key : (acceptedId H o s op = some m ∧ m ∉ s.done ∧ m ∈ (step H o s op).done) ∨
+        (acceptedId H o s op ≠ some m ∧ (m ∈ (step H o s op).done ↔ m ∈ s.done)) := by
+      cases op with
+      | importTx env src inp =>
+        obtain ⟨hgate, _⟩ := hg
+        simp only [step]
+        rcases import_done H o hconf env s src inp with ⟨hnone, hd⟩ | ⟨p, hsome, hfresh, hd⟩
+        · right; rw [hnone, hd]; simp
+        · simp only [hgate, if_true] at hd
+          by_cases hmm : (src, p.crossChainID) = m
+          · left; subst hmm
+            exact ⟨hsome, hfresh hgate, by rw [hd]; exact List.mem_cons_self⟩
+          · right
+            refine ⟨by rw [hsome]; simpa using hmm, ?_⟩
+            rw [hd]; simp [Ne.symm hmm]
+      | black w c =>
+        right
+        have : (step H o s (Op.black w c)).done = s.done := by simp only [step, blackChain]; split <;> rfl
+        simp [acceptedId, this]
+      | white w c =>
+        right
+        have : (step H o s (Op.white w c)).done = s.done := by simp only [step, whiteChain]; split <;> rfl
+        simp [acceptedId, this]
+      | register c r => right; simp [acceptedId, step]
+      | unregister c => right; simp [acceptedId, step]
+    have hrest : GateOn rest := by
+      cases op with
+      | importTx env src inp => exact hg.2
+      | black w c => exact hg
+      | white w c => exact hg
+      | register c r => exact hg
+      | unregister c => exact hg
+    obtain ⟨ih1, ih0⟩ := ih (step H o s op) hrest
+    simp only [countAccepted]
+    rcases key with ⟨hacc, hnot, hin⟩ | ⟨hacc, hiff⟩
+    · have hfin := run_done_mono H o hconf rest _ _ hin
+      have h0 := ih0 (fun h => h.2 hin)
+      constructor
+      · intro _; simp [hacc, h0]
+      · intro h; exact absurd ⟨hfin, hnot⟩ h
+    · constructor
+      · intro ⟨h1, h2⟩
+        have := ih1 ⟨h1, fun h => h2 (hiff.mp h)⟩
+        simp [hacc, this]
+      · intro h
+        have := ih0 (fun ⟨h1, h2⟩ => h ⟨h1, fun h3 => h2 (hiff.mpr h3)⟩)
+        simp [hacc, this]
+
+/-! ## gates, blacklist, registry -/
+
+theorem import_black_chains (H : Bytes → Bytes) (o : Oracles α ι) (hconf : DelegatesConfined o)
+    (env : Env) (s : State α) (src : Nat) (inp : ι) :
+    (importExTransfer H o env s src inp).state.black = s.black ∧
+    (importExTransfer H o env s src inp).state.chains = s.chains := by
+  rcases import_cases H o env s src inp with ⟨c, h⟩ | h | ⟨router, aux, _, _, _, _, _, h⟩ |
+      ⟨router, p, aux, tr, hacc, _, _, h⟩ | ⟨router, p, aux, tr, s2, hacc, hm, h⟩
+  · simp [h, fail]
+  · simp [h]
+  · simp [h]
+  · rw [h]; simp [makeTransaction]
+  · rw [h]
+    have := hconf env _ p src s2 hm
+    simp [this.2.1, this.2.2]
+
+/-- A rejected (or panicking) import changes nothing and commits no cross-state leaf. -/
+theorem import_reject_unchanged (H : Bytes → Bytes) (o : Oracles α ι) (env : Env) (s : State α) (src : Nat) (inp : ι)
+    (h : (∃ c, (importExTransfer H o env s src inp).outcome = .reject c) ∨
+         (importExTransfer H o env s src inp).outcome = .panic) :
+    (importExTransfer H o env s src inp).state = s ∧ (importExTransfer H o env s src inp).crossHashes = [] := by
+  rcases import_cases H o env s src inp with ⟨c, h'⟩ | h' | ⟨router, aux, _, _, _, _, _, h'⟩ |
+      ⟨router, p, aux, tr, hacc, _, _, h'⟩ | ⟨router, p, aux, tr, s2, hacc, hm, h'⟩
+  · simp [h', fail]
+  · simp [h']
+  · rw [h'] at h; simp at h
+  · rw [h'] at h; simp at h
+  · rw [h'] at h; simp at h
+
+theorem blackChain_mem (s : State α) (c x : Nat) :
+    x ∈ (blackChain s true c).2.black ↔ x ∈ s.black ∨ x = c := by
+  simp only [blackChain, Bool.not_true, Bool.false_eq_true, if_false]
+  by_cases h : c ∈ s.black
+  · simp only [h, if_true]
+    constructor
+    · exact Or.inl
+    · rintro (h' | h')
+      · exact h'
+      · subst h'; exact h
+  · simp only [h, if_false, List.mem_cons]
+    constructor
+    · rintro (h' | h')
+      · exact Or.inr h'
+      · exact Or.inl h'
+    · rintro (h' | h')
+      · exact Or.inr h'
+      · exact Or.inl h'
+
+theorem whiteChain_mem (s : State α) (c x : Nat) :
+    x ∈ (whiteChain s true c).2.black ↔ x ∈ s.black ∧ x ≠ c := by
+  simp [whiteChain]
+
+theorem blackChain_noWitness (s : State α) (c : Nat) : blackChain s false c = (.reject "witness", s) := by
+  simp [blackChain]
+
+theorem whiteChain_noWitness (s : State α) (c : Nat) : whiteChain s false c = (.reject "witness", s) := by
+  simp [whiteChain]
+
+/-- black then white of a chain that was not blacklisted gives back the blacklist exactly -/
+theorem white_after_black (s : State α) (c : Nat) (h : c ∉ s.black) :
+    (whiteChain (blackChain s true c).2 true c).2.black = s.black := by
+  simp only [blackChain, whiteChain, Bool.not_true, Bool.false_eq_true, if_false, h]
+  simp only [List.filter_cons, bne_self_eq_false, Bool.false_eq_true, if_false]
+  apply List.filter_eq_self.mpr
+  intro x hx
+  simp only [bne_iff_ne, ne_eq]
+  intro hxc; subst hxc; exact h hx
+
+/-- Every transaction other than a WhiteChain of `c` carrying the operator witness keeps `c` blacklisted. -/
+theorem step_black_persists (H : Bytes → Bytes) (o : Oracles α ι) (hconf : DelegatesConfined o) (s : State α)
+    (op : Op ι) (c : Nat) (hop : ∀ w, op = .white w c → w = false) (hc : c ∈ s.black) : c ∈ (step H o s op).black := by
+  cases op with
+  | importTx env src inp => simp only [step]; rw [(import_black_chains H o hconf env s src inp).1]; exact hc
+  | black w c' =>
+    cases w with
+    | false => simpa [step, blackChain] using hc
+    | true => exact (blackChain_mem s c' c).mpr (Or.inl hc)
+  | white w c' =>
+    cases w with
+    | false => simpa [step, whiteChain] using hc
+    | true =>
+      refine (whiteChain_mem s c' c).mpr ⟨hc, ?_⟩
+      intro h; subst h
+      have := hop true rfl
+      simp at this
+  | register c' r => exact hc
+  | unregister c' => exact hc
+
+theorem run_black_persists (H : Bytes → Bytes) (o : Oracles α ι) (hconf : DelegatesConfined o) (ops : List (Op ι))
+    (s : State α) (c : Nat) (hops : ∀ op ∈ ops, ∀ w, op = .white w c → w = false) (hc : c ∈ s.black) :
+    c ∈ (run H o s ops).black := by
+  induction ops generalizing s with
+  | nil => exact hc
+  | cons op rest ih =>
+    exact ih (step H o s op) (fun op' h => hops op' (List.mem_cons_of_mem _ h))
+      (step_black_persists H o hconf s op c (hops op List.mem_cons_self) hc)
+
+/-! ## request records -/
+
+theorem putAssoc_lookup {κ ν : Type} [DecidableEq κ] (m : List (κ × ν)) (k : κ) (v : ν) :
+    (putAssoc m k v).lookup k = some v := by
+  induction m with
+  | nil => simp [putAssoc, List.lookup]
+  | cons x r ih =>
+    obtain ⟨k', v'⟩ := x
+    simp only [putAssoc]
+    split
+    · simp [List.lookup]
+    · rename_i h
+      have : (k == k') = false := by simpa using fun h' => h h'.symm
+      simp [List.lookup, this, ih]
+
+theorem putAssoc_lookup_other {κ ν : Type} [DecidableEq κ] (m : List (κ × ν)) (k k' : κ) (v : ν) (h : k' ≠ k) :
+    (putAssoc m k v).lookup k' = m.lookup k' := by
+  induction m with
+  | nil =>
+    have : (k' == k) = false := by simpa using h
+    simp [putAssoc, List.lookup, this]
+  | cons x r ih =>
+    obtain ⟨k0, v0⟩ := x
+    simp only [putAssoc]
+    split
+    · rename_i h0
+      subst h0
+      have : (k' == k0) = false := by simpa using h
+      simp [List.lookup, this]
+    · simp only [List.lookup]
+      split <;> simp_all
+
+theorem putAssoc_keys_new {κ ν : Type} [DecidableEq κ] (m : List (κ × ν)) (k : κ) (v : ν)
+    (h : k ∉ m.map Prod.fst) : (putAssoc m k v).map Prod.fst = m.map Prod.fst ++ [k] := by
+  induction m with
+  | nil => simp [putAssoc]
+  | cons x r ih =>
+    obtain ⟨k', v'⟩ := x
+    simp only [List.map_cons, List.mem_cons, not_or] at h
+    simp only [putAssoc]
+    split
+    · rename_i h0; exact absurd h0.symm h.1
+    · simp [ih h.2]
+
+theorem putAssoc_keys_old {κ ν : Type} [DecidableEq κ] (m : List (κ × ν)) (k : κ) (v : ν)
+    (h : k ∈ m.map Prod.fst) : (putAssoc m k v).map Prod.fst = m.map Prod.fst := by
+  induction m with
+  | nil => simp at h
+  | cons x r ih =>
+    obtain ⟨k', v'⟩ := x
+    simp only [putAssoc]
+    split
+    · rename_i h0; subst h0; simp
+    · rename_i h0
+      simp only [List.map_cons, List.mem_cons] at h
+      rcases h with h | h
+      · exact absurd h.symm h0
+      · simp [ih h]
+
+/-- What an import does to the request records and the cross-state leaves. -/
+theorem import_requests (H : Bytes → Bytes) (o : Oracles α ι) (env : Env) (s : State α) (src : Nat) (inp : ι) :
+    ((importExTransfer H o env s src inp).outcome = .ok ∧
+      ∃ router p aux trouter, Accepted o env s src inp router p aux trouter ∧
+        trouter ≠ BTC_ROUTER ∧ trouter ≠ RIPPLE_ROUTER ∧
+        (importExTransfer H o env s src inp).state.requests =
+          putAssoc s.requests (p.toChainID, env.txHash) (encToMerkleValue env.txHash src p) ∧
+        (importExTransfer H o env s src inp).crossHashes = [hashLeaf H (encToMerkleValue env.txHash src p)])
+    ∨ ((importExTransfer H o env s src inp).outcome = .okDelegated ∧
+        (importExTransfer H o env s src inp).crossHashes = [])
+    ∨ ((importExTransfer H o env s src inp).outcome ≠ .ok ∧ (importExTransfer H o env s src inp).outcome ≠ .okDelegated ∧
+        (importExTransfer H o env s src inp).state.requests = s.requests ∧
+        (importExTransfer H o env s src inp).crossHashes = []) := by
+  rcases import_cases H o env s src inp with ⟨c, h⟩ | h | ⟨router, aux, _, _, _, _, _, h⟩ |
+      ⟨router, p, aux, tr, hacc, h1, h2, h⟩ | ⟨router, p, aux, tr, s2, hacc, hm, h⟩
+  · right; right; simp [h, fail]
+  · right; right; simp [h]
+  · right; right; simp [h]
+  · left
+    refine ⟨by rw [h], router, p, aux, tr, hacc, h1, h2, ?_, ?_⟩
+    · rw [h]; simp [makeTransaction]
+    · rw [h]; simp [makeTransaction]
+  · right; left; simp [h]
 
 end Poly.Model.CCM
